@@ -140,24 +140,13 @@ def check(ctx):
     want = ["_process_send_requests", "_process_received_data", "loop", "_cleanup_handlers", "_loop_func"]
     ctx.ob("R5", f"{tf.qual}::phases", [o for o in order if o in want] == want, f"{tf.qual}: engine phases are {order}, expected {want}", tf.loc)
 
-    # ---- R5 retry life-cycle -----------------------------------------------------------------------------
-    rt = repo.own_method(BASE, "retry")
-    grt = cfg_of(rt)
-    dec = [n for n in grt.stmt_nodes() if isinstance(n.ast, ast.AugAssign) and ast.unparse(n.ast.target) == "self._retry_count" and isinstance(n.ast.op, ast.Sub) and repo.try_fold(n.ast.value) == 1]
-    ctx.ob("R5", f"{rt.qual}::one-decrement", len(dec) == 1 and grt.loop_of(dec[0]) is None, f"{rt.qual}: retry budget not decremented exactly once by 1", rt.loc)
-    qs = calls_named(grt, "queue_send")
-    ok = len(qs) == 1 and [ast.unparse(a) for a in qs[0][1].args] == ["self", "self.last_destination"] and bool(dec) and grt.dom(dec[0], qs[0][0])
-    ctx.ob("R5", f"{rt.qual}::requeues-to-last-destination", ok, f"{rt.qual}: does not re-queue itself to last_destination after decrementing", rt.loc)
-    rst = calls_named(grt, "_reset_timeout")
-    ctx.ob("R5", f"{rt.qual}::restarts-timeout", bool(rst) and bool(dec) and grt.dom(dec[0], rst[0][0]), f"{rt.qual}: timeout not restarted on retry (would retry on every loop pass)", rt.loc)
+    # ---- R5 retry life-cycle: by interpretation (vlib/handlermodel.py) --------------------------------------
+    from ..handlermodel import builder_keywords, loop_obligations, retry_obligations
+    retry_obligations(ctx, repo, "R5")
+    loop_obligations(ctx, repo, "R5")
     lpf = repo.own_method(BASE, "loop")
     gl = cfg_of(lpf)
     rc = calls_named(gl, "retry")
-    ok = len(rc) == 1 and ("self.has_timedout", True) in gl.guard_atoms(rc[0][0])
-    ctx.ob("R5", f"{lpf.qual}::retry-only-after-timeout", ok, f"{lpf.qual}: retry() is not consulted exactly when the handler has timed out", lpf.loc)
-    fc = [(n, c) for n, c in calls_named(gl, "_on_retry_failed")]
-    ok = len(fc) == 1 and any(("self.retry(socket)", False) == (t, p) for t, p in gl.guard_atoms(fc[0][0])) if fc else False
-    ctx.ob("R5", f"{lpf.qual}::failure-only-when-refused", ok, f"{lpf.qual}: on_retry_failed is not called exactly when retry() refused; guards {sorted(gl.guard_atoms(fc[0][0])) if fc else None}", lpf.loc)
     # R8: once answered, no further transmission.  Within one engine pass the order is dispatch -> loop() of
     # every handler -> clean-up, so an answered (flagged) handler still gets a loop() call; it must not retry there.
     hd = repo.own_method(BASE, "handled")
@@ -184,22 +173,28 @@ def check(ctx):
            "an answered request can be transmitted again: its answer is dispatched after its timeout expired, the same engine pass then calls its loop(), which sees the timeout and retries (queueing a send) before the clean-up removes it ["
            + "; ".join(why_not) + "]", hd.loc,
            sample={"rule": "R8", "handled_restarts_timeout_on_every_path": by_reset, "loop_skips_flagged": by_guard, "cleanup_before_loop": by_order})
-    dfh = repo.own_method(BASE, "_default_retry_failed_handler")
-    ok = any(isinstance(n, ast.Assign) and ast.unparse(n.targets[0]).endswith("._should_remove_handler") and repo.try_fold(n.value) is True for n in ast.walk(dfh.node))
-    ctx.ob("R5", f"{dfh.qual}::flags-removal", ok, "the default retry-failed handler does not flag the handler for removal", dfh.loc)
     cl = repo.own_method(SOCK, "_cleanup_handlers")
-    t = ast.unparse(cl.node)
-    ok = "if handler.should_remove_handler" in t and "if handler not in remove_handlers" in t and "self._receive_handlers = " in t
-    ctx.ob("R5", f"{cl.qual}::removes-exactly-flagged", ok, f"{cl.qual} does not rebuild the handler list without exactly the flagged handlers", cl.loc)
-    srh = repo.own_method(BASE, "should_remove_handler")
-    ctx.ob("R5", "should_remove_handler::reads-flag", "return self._should_remove_handler" in ast.unparse(srh.node), "should_remove_handler does not return the flag", srh.loc)
+    # by interpretation: three registered handlers, the first and third flagged -> exactly the second stays, in place
+    from ..absint import Interp as _I, Obj as _O, PyRaise as _PR, Undecided as _UD
+    hs = [_O(None, {"should_remove_handler": f, "_should_remove_handler": f}, name=f"h{i}") for i, f in enumerate((True, False, True, False))]
+    sock_obj = _O(repo.cls(SOCK), {"_receive_handlers": list(hs), "_send_handlers": [], "_lock": _O(None, name="lock")})
+    try:
+        _I(repo).call(cl, sock_obj, [])
+        left = sock_obj.attrs.get("_receive_handlers")
+        ok = isinstance(left, list) and len(left) == 2 and left[0] is hs[1] and left[1] is hs[3]
+        why = f"{[getattr(x, 'name', x) for x in left] if isinstance(left, list) else left}"
+    except _PR as e:
+        ok, why = False, f"raises {e.what}"
+    except _UD as e:
+        raise AnalysisError(f"{cl.qual}: cannot interpret: {e}")
+    ctx.ob("R5", f"{cl.qual}::removes-exactly-flagged", ok, f"{cl.qual} on handlers [flagged, live, flagged, live] leaves {why}: not exactly the live handlers in registration order", cl.loc)
     # request builders of the blocking stack arm retry + default failure handler
     n_b = 0
     for c in repo.subclasses(BASE):
         for m in c.methods.values():
             if m.is_static and m.name in ("request", "set_value", "keypress"):
                 n_b += 1
-                kws = {k.arg for n in ast.walk(m.node) if isinstance(n, ast.Call) for k in n.keywords}
+                kws = set(builder_keywords(repo, m))
                 if c.short == "GeckoPingProtocolHandler":
                     continue
                 ctx.ob("R5", f"{m.qual}::armed", {"timeout", "retry_count", "on_retry_failed"} <= kws, f"{m.qual} does not arm timeout/retry_count/on_retry_failed", m.loc)
